@@ -274,6 +274,25 @@ class Setup:
                     moved = cm.coinstate.current_chain_hash == rbB.id()
                     if moved and as_answer:
                         c["head_is_an_unvalidated_download_answer"] = c.get("head_is_an_unvalidated_download_answer", 0) + 1
+                        if self.rng.random() < 0.5:
+                            # ... which the node had held before, lost again when a peer relayed a rule-breaking block on top of it
+                            # (refused: the node falls back to what it had validated), and downloaded a second time
+                            try:
+                                from skv import cstream
+                                tmpw = world.fork()
+                                tmpw.accept(rbB, realB, validate=False)
+                                bad = cstream.v_reward_plus_one(tmpw, rbB.id(), self.rng)
+                                if bad is not None:
+                                    self.net.clock.t = max(self.net.clock.t, bad[0].ts)
+                                    self.rng.choice(self.peers).push(self.wire.block(bridge.rblock_to_real(bad[0])))
+                                    self.net.settle(node)
+                                    self.peers = [p for p in self.peers if not p.peer.closed] or self.peers
+                                    self.rng.choice(self.peers).push(self.wire.block(realB, in_response_to=8))
+                                    self.net.settle(node)
+                                    moved = cm.coinstate.current_chain_hash == rbB.id()
+                                    c["head_downloaded_again_after_a_fall_back"] = c.get("head_downloaded_again_after_a_fall_back", 0) + 1
+                            except Exception:
+                                pass
                 except Exception:
                     moved = False
                 if moved:
